@@ -551,7 +551,7 @@ pub fn gen(tier: &str, rng: &mut Rng, emit: &mut Emit) {
         let ops = (0..800).map(|_| rand_op(rng, 5)).collect(); // 800 * 92 bytes > 65536
         emit.case(21, history(rng, c, ops));
     }
-    if tier == "thorough" {
+    if tier == "thorough" && long_runs_affordable(emit) {
         let c = rand_ctor(rng);
         let ops = (0..65_540).map(|_| smallest(2)).collect();
         emit.case(21, history(rng, c, ops));
